@@ -31,8 +31,14 @@ def execute(case):
     pre = case.get("pre")
     if pre:
         # history on ONE graph object: it was covered before, then edited (an edge moved: counts unchanged), now covered again
+        prior = lambda g: (lambda: gcmpy.MPCC(g) if pre.get("limit", -1) == -1 else gcmpy.MPCC(g, pre["limit"]))
         try:
-            Oracle().run_seeded(pre.get("seed", 3), lambda: gcmpy.MPCC(G) if pre.get("limit", -1) == -1 else gcmpy.MPCC(G, pre["limit"]))
+            if pre.get("abort") is not None:
+                # crash point: that earlier cover was abandoned part-way (possibly inside networkx's clique enumeration)
+                from ..crash import abort_frac
+                Oracle().run_seeded(pre.get("seed", 3), lambda: abort_frac(prior(G.copy()), prior(G), pre["abort"], deep=True))
+            else:
+                Oracle().run_seeded(pre.get("seed", 3), prior(G))
         except Exception:
             pass
         if pre.get("move"):
@@ -142,6 +148,15 @@ def run(chk):
                 traces.append(execute({"nodes": nodes, "edges": es, "limit": rng.choice([-1, 0, 3]), "rng": ("seed", rng.randrange(1 << 30)),
                                        "pre": {"limit": rng.choice([-1, 0, 2, 3]), "seed": rng.randrange(1 << 30),
                                                "move": [list(mv[0]), list(mv[1])] if mv else None}}))
+    # crash points: the earlier cover of the same graph object was abandoned part-way; the graph is unchanged and covered again
+    for n in (4, 5, 6):
+        nodes = list(range(n))
+        for rep in range(40 if not thorough else 400):
+            es = [e for e in itertools.combinations(range(n), 2) if rng.random() < rng.choice([0.6, 0.85, 1.0])]
+            if es:
+                traces.append(execute({"nodes": nodes, "edges": es, "limit": rng.choice([-1, 0, 3, 4]), "rng": ("seed", rng.randrange(1 << 30)),
+                                       "pre": {"limit": rng.choice([-1, -1, 3]), "seed": rng.randrange(1 << 30), "move": None,
+                                               "abort": rng.choice([0.05, 0.2, 0.4, 0.6, 0.8, 0.95])}}))
     realised = sum(1 for t in traces if t["order_realised"])
     if not realised:
         chk.not_decided.append("directed clique orders could not be realised through the oracle (seeded shuffles judged instead)")
